@@ -3,6 +3,7 @@
 pub mod engine;
 pub mod io;
 pub mod msg;
+pub mod pk;
 pub mod props;
 pub mod recsign;
 pub mod refimpl;
